@@ -207,7 +207,7 @@ pub fn run_c06(cfg: &Cfg) -> Report {
         let maxlen = match t.cfg.tier {
             Tier::Tiny => 3,
             Tier::Quick => 8,
-            Tier::Thorough => 10,
+            Tier::Thorough => 13,
         };
         let mut idx = 0u64;
         let mut total = 0u64;
@@ -342,7 +342,7 @@ pub fn run_c06(cfg: &Cfg) -> Report {
         let (single_hi, firsts, second_hi): (usize, Vec<usize>, usize) = match t.cfg.tier {
             Tier::Tiny => (300, vec![0, 16, 253], 40),
             Tier::Quick => (1100, vec![0, 1, 15, 16, 17, 100, 250, 251, 252, 253, 254, 255, 300, 507, 508, 600], 560),
-            Tier::Thorough => (2100, vec![0, 1, 2, 15, 16, 17, 31, 100, 200, 250, 251, 252, 253, 254, 255, 256, 300, 400, 506, 507, 508, 509, 600, 761, 762, 1016], 1100),
+            Tier::Thorough => (4200, vec![0, 1, 2, 3, 14, 15, 16, 17, 18, 31, 32, 100, 200, 236, 237, 238, 250, 251, 252, 253, 254, 255, 256, 257, 300, 400, 490, 491, 492, 506, 507, 508, 509, 510, 600, 700, 761, 762, 763, 1015, 1016, 1017], 2200),
         };
         let mut idx = 0u64;
         let piece = |rng: &mut crate::rng::Rng, n: usize, style: u32| -> (Shape, Val) {
@@ -403,9 +403,9 @@ pub fn run_c06(cfg: &Cfg) -> Report {
     });
     rep.stats.merge(s);
     rep.floor("block_written_messages", 100);
-    rep.rule = "cases = message (plain encoding) x storage kind, and frame sequences: every message up to length 8 (quick) / 10 (thorough) over {00,01,02,FF} produced through \
+    rep.rule = "cases = message (plain encoding) x storage kind, and frame sequences: every message up to length 8 (quick) / 13 (thorough) over {00,01,02,FF} produced through \
                 tuple-of-u8 shapes, zero-free / single-zero / sprinkled / edge-zero runs of length 252..256, 507..510, 761..764, 1015..1018, random messages up to 1200 bytes, \
-                messages written as blocks (one string / byte array of every length 0..1100 quick / 2100 thorough; pairs with the first block at 16 (26) lengths and the second of every length 0..560 (1100); 3-5 random blocks with scalars between), ordinary random-shape values; storage = slice, heapless (6 capacities), growable; sequences of 1..6 frames walked with take_from_bytes_cobs, with and without \
+                messages written as blocks (one string / byte array of every length 0..1100 quick / 4200 thorough; pairs with the first block at 16 (42) lengths and the second of every length 0..560 (2200); 3-5 random blocks with scalars between), ordinary random-shape values; storage = slice, heapless (6 capacities), growable; sequences of 1..6 frames walked with take_from_bytes_cobs, with and without \
                 the last sentinel. Non-trivial = every message; distinct = fingerprint of (shape, plain bytes)."
         .into();
     rep.assumptions = vec![
